@@ -94,10 +94,30 @@ impl WithdrawalsBuilder {
         set
     }
 
+    // The ledger keeps withdrawals in a map ordered by reward account (network id,
+    // script credentials before key credentials, then the hash) and reward redeemers
+    // point into that order, whatever the order of insertion was.
+    fn ledger_ordered(&self) -> Vec<(&RewardAddress, &(Coin, Option<ScriptWitnessType>))> {
+        fn order_key(address: &RewardAddress) -> (u8, u8, Vec<u8>) {
+            let cred = address.payment_cred();
+            match cred.to_scripthash() {
+                Some(hash) => (address.network, 0, hash.to_bytes()),
+                None => (
+                    address.network,
+                    1,
+                    cred.to_keyhash().map(|h| h.to_bytes()).unwrap_or_default(),
+                ),
+            }
+        }
+        let mut ordered: Vec<_> = self.withdrawals.iter().collect();
+        ordered.sort_by_key(|(address, _)| order_key(address));
+        ordered
+    }
+
     pub fn get_plutus_witnesses(&self) -> PlutusWitnesses {
         let tag = RedeemerTag::new_reward();
         let mut scripts = PlutusWitnesses::new();
-        for (i, (_, (_, script_wit))) in self.withdrawals.iter().enumerate() {
+        for (i, (_, (_, script_wit))) in self.ledger_ordered().into_iter().enumerate() {
             if let Some(ScriptWitnessType::PlutusScriptWitness(s)) = script_wit {
                 let index = BigNum::from(i);
                 scripts.add(&s.clone_with_redeemer_index_and_tag(&index, &tag));
@@ -177,8 +197,8 @@ impl WithdrawalsBuilder {
 
     pub fn build(&self) -> Withdrawals {
         let map = self
-            .withdrawals
-            .iter()
+            .ledger_ordered()
+            .into_iter()
             .map(|(k, (v, _))| (k.clone(), v.clone()))
             .collect();
         Withdrawals(map)
